@@ -9,6 +9,10 @@ from ..core import CTX, attempt, held, violated, undefined, same_array, short, s
 from .. import gen, contracts, rl
 
 PROP = "C14"
+LEVEL_TEXT = 'Round trip and canonical-form check (boundaries strict, joined where promised) for every producer, exhaustive over all arrays of length <=5 (quick) / <=7 (thorough) over three symbols, all dtypes incl. float16 and non-finite values; icontract invariant on every RunLengthArray instance created by any C14-C17 workload. Exploration.'
+LEVEL_NOTE = "trusts numpy 2.x, CPython (copy.copy, slice semantics, big ints) and the reference model in rtmon/props/c14.py; decides the executions it produces, nothing more"
+TECHNIQUE = 'runtime monitoring: icontract class invariant on RunLengthArray + canonical-form oracle + exhaustive small-scope sweep'
+DESIGN_REF = "DESIGN.md sections 0, 5 (C14), 7"
 RULE = ("case = (dtype, 1-D values with a named run pattern, producer: encode | slice | binary ufunc on two encoded arrays | unary | scalar | concatenate); "
         "distinct = hash of the case; non-trivial = length >= 2 and >= 2 runs or a run of length >= 2")
 ASSUMPTIONS = ["'equal' is numpy's ==: -0.0 and 0.0 may share a run; NaN never equals NaN, so every NaN is a run of its own"]
